@@ -123,7 +123,11 @@ func (c *quotaCase) build() *quotaPop {
 		var list []*genetics.Organism
 		for i := len(s.Fit) - 1; i >= 0; i-- {
 			gid++
-			org, _ := genetics.NewOrganism(float64(s.Fit[i]), vhu.ReadGenomeString(vhu.XorStartGenome, gid), 1)
+			g, derr := baseGenome().VerifDuplicate(gid)
+			if derr != nil {
+				panic(derr)
+			}
+			org, _ := genetics.NewOrganism(float64(s.Fit[i]), g, 1)
 			org.Species = sp
 			sp.VerifAddOrganism(org)
 			qp.pop.Organisms = append(qp.pop.Organisms, org)
@@ -137,6 +141,16 @@ func (c *quotaCase) build() *quotaPop {
 		}
 	}
 	return qp
+}
+
+var xorBase *genetics.Genome
+
+// baseGenome is the XOR start genome every organism of a replayed population is a duplicate of.
+func baseGenome() *genetics.Genome {
+	if xorBase == nil {
+		xorBase = vhu.ReadGenomeString(vhu.XorStartGenome, 1)
+	}
+	return xorBase
 }
 
 // coinSeed finds a seed of the global source whose first draws give the wanted outcomes of rand.Float64() > 0.1.
